@@ -93,7 +93,31 @@ def expr(n, params):
             for _ in range(k):
                 pd = '(pderiv %s)' % pd
             return '(%s * (peval %s %s))' % (expr(f.left, params), pd, expr(n.args[0], params))
+        # legval(arg, legder([0]*self.degree + [1], k)): k-th derivative of P_degree, evaluated in the Legendre basis
+        # (numpy.polynomial.legendre; same mathematical object as peval (pderiv^k p), p the monomial coefficients)
+        if isinstance(f, ast.Name) and f.id == 'legval' and len(n.args) == 2 and is_legder_basis(n.args[1]):
+            k = n.args[1].args[1].value
+            params.add('p')
+            pd = 'p'
+            for _ in range(k):
+                pd = '(pderiv %s)' % pd
+            return '(peval %s %s)' % (pd, expr(n.args[0], params))
     raise TranslateError(ast.dump(n))
+
+
+def is_legder_basis(n):
+    """legder([0]*self.degree + [1], k) with a literal k >= 0"""
+    if not (isinstance(n, ast.Call) and isinstance(n.func, ast.Name) and n.func.id == 'legder' and len(n.args) == 2
+            and not n.keywords and isinstance(n.args[1], ast.Constant) and isinstance(n.args[1].value, int)
+            and not isinstance(n.args[1].value, bool) and n.args[1].value >= 0):
+        return False
+    c = n.args[0]
+    def lit_list(x, v):
+        return (isinstance(x, ast.List) and len(x.elts) == 1 and isinstance(x.elts[0], ast.Constant)
+                and type(x.elts[0].value) is int and x.elts[0].value == v)
+    return (isinstance(c, ast.BinOp) and isinstance(c.op, ast.Add) and lit_list(c.right, 1)
+            and isinstance(c.left, ast.BinOp) and isinstance(c.left.op, ast.Mult) and lit_list(c.left.left, 0)
+            and is_self_attr(c.left.right, 'degree'))
 
 
 def is_check(s):
